@@ -770,7 +770,7 @@ func (p *Process) setStateAndRun(state string, runnable func() error) error {
 }
 
 func (p *Process) onStateChange(state string) {
-	verifPoint(p, "state", state)
+	defer verifPoint(p, "state", state)
 	switch state {
 	case types.ProcessStateSkipped:
 		p.setExitCode(1)
